@@ -59,6 +59,10 @@ class Printer:
             return "%s[%s]" % (self.e(x[1], 99), self.e(x[2]))
         if k == "vec":
             return "[" + ", ".join(self.e(a) for a in x[1]) + "]" if x[1] else "Vector()"
+        if k == "map":
+            return "[" + ", ".join("%s: %s" % (chai_string(kk), self.e(a)) for kk, a in x[1]) + "]" if x[1] else "Map()"
+        if k == "int_of":
+            return "int(%s)" % self.e(x[1])
         if k == "tostr":
             return "to_string(%s)" % self.e(x[1])
         if k == "size":
